@@ -21,7 +21,7 @@ enum {
     WO_BYT_0, WO_BYT_1, WO_BYT_128, WO_RAW_0, WO_RAW_2, WO_P2W,
     /* write_raw whose SOURCE lies inside the writer's own buffer and overlaps the destination (bytes re-emitted from the output so far /
      * a payload staged just ahead of the cursor): the stored bytes must be the source as it was before the call */
-    WO_RAW_BACK, WO_RAW_AHEAD,
+    WO_RAW_BACK, WO_RAW_AHEAD, WO_RAW_INPLACE,
     /* parser_to_writer with a healthy parser that is NOT on a container (on an integer): returns false and changes nothing, neither
      * the counter nor the error indicator, whatever state the writer is in */
     WO_P2W_REFUSED,
@@ -39,14 +39,15 @@ static const char *const wo_name[WO_NOPS] = {
     "object_begin", "object_end", "array_begin", "array_end", "true", "false", "int(1)", "int(-128)", "int(128)", "int(-32769)", "int(2^31)",
     "int(INT64_MIN)", "double(-1.5)", "string_with_len(0)", "string_with_len(1)", "string_with_len(127)", "string_with_len(128)",
     "string_with_len(300)", "write_string(\"ab\")", "write_name(\"a\")", "bytes(0)", "bytes(1)", "bytes(128)", "write_raw(0)", "write_raw(2)",
-    "parser_to_writer([1])", "write_raw(4 bytes starting 2 below the cursor)", "write_raw(4 bytes staged 1 above the cursor)", "parser_to_writer(parser on an integer)", "string_with_len(40000)", "bytes(32768)", "integer(V)", "double(V)", "string_with_len(L)", "bytes(L)", "write_string(L chars)", "write_raw(L)",
+    "parser_to_writer([1])", "write_raw(4 bytes starting 2 below the cursor)", "write_raw(4 bytes staged 1 above the cursor)", "write_raw(the 4 bytes AT the cursor: source == destination)", "parser_to_writer(parser on an integer)", "string_with_len(40000)", "bytes(32768)", "integer(V)", "double(V)", "string_with_len(L)", "bytes(L)", "write_string(L chars)", "write_raw(L)",
     "string_with_len(INT32_MAX+1)", "bytes(SIZE_MAX)", "write_string(NULL)", "write_raw(NULL)", "write_raw(len=SIZE_MAX)", "write_raw(len=SIZE_MAX-1: counter+len wraps)"
 };
 
 static uint8_t wexp_payload[200100];       /* patterned source bytes */
 static char wexp_zpayload[200100];         /* NUL-free text for write_string */
 static uint8_t wexp_alias_bytes[4];       /* what the aliasing operation must emit */
-static uint8_t *wexp_alias_dst; static size_t wexp_alias_cap, wexp_alias_used; static bool wexp_alias_ok;   /* set by wexp_run before the real call */
+#define WEXP_SLACK 8
+static uint8_t *wexp_alias_dst; static size_t wexp_alias_cap, wexp_alias_used; static bool wexp_alias_ok, wexp_alias_ok_any;   /* set by wexp_run before the real call */
 static int64_t wexp_vint; static uint64_t wexp_vdbl; static size_t wexp_vlen;     /* arguments of the parametric operations */
 static uint8_t wexp_p2w_doc[] = { 0x42, 0x42, 0x10, 0x01, 0x43, 0x43 };     /* [[1]] : the inner [1] is what parser_to_writer copies */
 
@@ -100,6 +101,7 @@ static int wexp_ref_op(int op, vf_doc *ref, wpiece *pc)
         for (int i = 0; i < 4; i++) wexp_alias_bytes[i] = (i < 2 && a >= 2) ? ref->bytes[a - 2 + (size_t) i] : 0xA5;
         vf_put(ref, wexp_alias_bytes, 4); ONE(); break;
     case WO_RAW_AHEAD: memcpy(wexp_alias_bytes, "WXYZ", 4); vf_put(ref, wexp_alias_bytes, 4); ONE(); break;
+    case WO_RAW_INPLACE: memset(wexp_alias_bytes, 0xA5, 4); vf_put(ref, wexp_alias_bytes, 4); ONE(); break;     /* what lies at the cursor: untouched fill */
     case WO_P2W_REFUSED: break;     /* nothing is emitted */
     case WO_RAW_0: ONE(); break;    /* a zero-length piece */
     case WO_RAW_2: vf_put(ref, "\x44\x45", 2); ONE(); break;
@@ -151,6 +153,14 @@ static bool wexp_real_op(int op, binson_writer *w)
         memcpy(priv, wexp_alias_bytes, 4);
         bool alias = wexp_alias_ok && wexp_alias_used >= 2 && wexp_alias_used + 2 <= wexp_alias_cap;
         return binson_write_raw(w, alias ? wexp_alias_dst + wexp_alias_used - 2 : priv, 4);
+    }
+    case WO_RAW_INPLACE: {
+        /* the caller built 4 bytes exactly where they belong (in its own memory, which extends WEXP_SLACK bytes beyond the capacity it
+         * granted the writer) and asks the writer to account for them: same rules as any other write */
+        uint8_t priv[4];
+        memcpy(priv, wexp_alias_bytes, 4);
+        bool alias = wexp_alias_ok_any && wexp_alias_used + 4 <= wexp_alias_cap + WEXP_SLACK;
+        return binson_write_raw(w, alias ? wexp_alias_dst + wexp_alias_used : priv, 4);
     }
     case WO_RAW_AHEAD: {
         uint8_t priv[4];
@@ -220,10 +230,12 @@ static bool wexp_run(const wexp_cfg *cf, const int *seq, int n, size_t cap, wexp
     static vf_doc ref;
     wpiece pc[4];
     ref.len = 0;
-    uint8_t *dst = (uint8_t *) malloc(cap ? cap : 1);
+    /* the destination block is WEXP_SLACK bytes longer than the capacity granted to the writer: the slack is the caller's own memory
+     * (it must stay untouched; checked after every call), ASan guards what lies beyond it */
+    uint8_t *dst = (uint8_t *) malloc(cap + WEXP_SLACK);
     if (!dst) vf_die("oom");
-    uint8_t *dptr = cap ? dst : dst + 1;    /* capacity 0: the end of a 1-byte block */
-    memset(dst, 0xA5, cap ? cap : 1);
+    uint8_t *dptr = dst;
+    memset(dst, 0xA5, cap + WEXP_SLACK);
     binson_writer w;
     memset(&w, 0x77, sizeof w);             /* a writer object holding arbitrary bytes */
     bool ok = true;
@@ -265,10 +277,17 @@ static bool wexp_run(const wexp_cfg *cf, const int *seq, int n, size_t cap, wexp
         memcpy(shadow, dptr, cap);
         binson_err e0 = w.error_flags;
         vf_progress++;
+        wexp_alias_ok_any = e0 == BINSON_ERROR_NONE && counter_defined && (noenc ? ref.len : (np ? pc[0].off : ref.len)) <= cap;   /* no failure BEFORE this call: the fill at the cursor is intact */
         wexp_alias_dst = dptr; wexp_alias_cap = cap; wexp_alias_used = ref.len - (noenc ? 0 : (np ? ref.len - pc[0].off : 0)); wexp_alias_ok = !failed && counter_defined;
         vf_stack_paint();
         bool r = wexp_real_op(op, &w);
-        wexp_alias_ok = false;
+        wexp_alias_ok = false; wexp_alias_ok_any = false;
+        for (int k = 0; k < WEXP_SLACK; k++) if (dptr[cap + (size_t) k] != 0xA5) {
+            snprintf(mm->why, sizeof mm->why, "call %d (%s) stored a byte at offset %zu, beyond the capacity %zu", i, wo_name[op], cap + (size_t) k, cap);
+            snprintf(mm->sig, sizeof mm->sig, "beyond-capacity");
+            ok = false; break;
+        }
+        if (!ok) break;
         if (counting) {
             vf_count(CT_W_CALLS, 1);
             if (!r) vf_count(CT_W_FALSE_CALLS, 1);
